@@ -88,4 +88,6 @@ def register(P):
     P.PROPS["C09"]["components"].append("vsock")
     P.PROPS["C09"]["oracles"]["isn_relabel"] = VO.ALL["isn_relabel"]
     P.ORACLE_COMPONENT["isn_relabel"] = "vsock"
+    P.PROPS["C09"]["oracles"]["tx_outstanding"] = VO.ALL["tx_outstanding"]
+    P.ORACLE_COMPONENT["tx_outstanding"] = "vsock"
     P.ORACLE_COMPONENT["task_ends"] = "vsock"
